@@ -106,6 +106,9 @@ impl FromDict for Function {
                     _ => bail!("unknown dimensions")
                 };
                 let mut parts = Vec::with_capacity(n_dim);
+                if raw.domain.len() < 2 {
+                    bail!("function domain needs two numbers, found {}", raw.domain.len());
+                }
                 let input_range = (raw.domain[0], raw.domain[1]);
                 for dim in 0 .. n_dim {
                     let output_range = (
